@@ -3,6 +3,7 @@ package main
 import (
 	"fmt"
 	"go/token"
+	"go/types"
 	"sort"
 	"strings"
 
@@ -394,6 +395,21 @@ func phiEdgeInfeasible(b, from *ssa.BasicBlock, si int) bool {
 	if l.Op != token.EQL && l.Op != token.NEQ {
 		return false
 	}
+	// comparison with nil: the incoming value may be known nil / non-nil without being a constant
+	// (a folded helper's `return err` under `if err != nil`, `return &E{}`, `return nil`, all merged
+	// in one φ that the caller tests again)
+	if x, y, ok := phiVsNil(b, l.X, l.Y); ok {
+		if p := x.(*ssa.Phi); pi < len(p.Edges) {
+			_ = y
+			switch nilness(p.Edges[pi], from) {
+			case isNil:
+				return l.Op == token.NEQ
+			case isNonNil:
+				return l.Op == token.EQL
+			}
+		}
+		return false
+	}
 	c, ok := incoming(l.X)
 	k, ok2 := strip(l.Y).(*ssa.Const)
 	if !ok || !ok2 || k.Value == nil {
@@ -408,6 +424,81 @@ func phiEdgeInfeasible(b, from *ssa.BasicBlock, si int) bool {
 		return !equal
 	}
 	return equal
+}
+
+// phiVsNil: one side is a φ of block b, the other the nil constant.
+func phiVsNil(b *ssa.BasicBlock, x, y ssa.Value) (ssa.Value, ssa.Value, bool) {
+	isNilConst := func(v ssa.Value) bool {
+		c, ok := strip(v).(*ssa.Const)
+		return ok && c.Value == nil && !isBasicType(c.Type())
+	}
+	if p, ok := strip(x).(*ssa.Phi); ok && p.Block() == b && isNilConst(y) {
+		return p, y, true
+	}
+	if p, ok := strip(y).(*ssa.Phi); ok && p.Block() == b && isNilConst(x) {
+		return p, x, true
+	}
+	return nil, nil, false
+}
+
+func isBasicType(t types.Type) bool {
+	_, ok := t.Underlying().(*types.Basic)
+	return ok
+}
+
+const (
+	unknownNil = iota
+	isNil
+	isNonNil
+)
+
+// nilness of value v when control leaves block `at` : by construction (nil constant, a fresh
+// object), or because `at` is only entered over branch edges that compared v with nil.
+func nilness(v ssa.Value, at *ssa.BasicBlock) int {
+	switch x := v.(type) {
+	case *ssa.Const:
+		if x.Value == nil && !isBasicType(x.Type()) {
+			return isNil
+		}
+		return unknownNil
+	case *ssa.MakeInterface:
+		if _, isPtr := x.X.Type().Underlying().(*types.Pointer); !isPtr {
+			return isNonNil
+		}
+		if _, isAlloc := x.X.(*ssa.Alloc); isAlloc {
+			return isNonNil
+		}
+		return unknownNil // a typed nil pointer in an interface is still a non-nil interface, but stay modest
+	case *ssa.Alloc, *ssa.MakeMap, *ssa.MakeSlice, *ssa.MakeChan, *ssa.MakeClosure, *ssa.Function:
+		return isNonNil
+	}
+	for depth, b := 0, at; depth < 4 && b != nil && len(b.Preds) == 1; depth, b = depth+1, b.Preds[0] {
+		p := b.Preds[0]
+		ifi, ok := p.Instrs[len(p.Instrs)-1].(*ssa.If)
+		if !ok {
+			continue
+		}
+		if p.Succs[0] == p.Succs[1] {
+			continue
+		}
+		l := litOf(ifi.Cond, p.Succs[0] == b)
+		if l.Op != token.EQL && l.Op != token.NEQ {
+			continue
+		}
+		a, c := l.X, l.Y
+		if strip(c) == strip(v) {
+			a, c = c, a
+		}
+		k, isC := strip(c).(*ssa.Const)
+		if strip(a) != strip(v) || !isC || k.Value != nil || isBasicType(k.Type()) {
+			continue
+		}
+		if l.Op == token.EQL {
+			return isNil
+		}
+		return isNonNil
+	}
+	return unknownNil
 }
 
 // passEdges computes, for a function, the set of If-edges on which at least one atom of the clause
